@@ -21,6 +21,8 @@ type Graph struct {
 	formOf     map[*cfg.Block]*bform
 	flagInf    *flagInfo
 	flagsDone  bool
+	sideAcc    *[]*bform
+	flagActive map[ast.Node]bool
 }
 
 // Point is the position just before node I of block B (I == len(B.Nodes): end of block).
